@@ -525,7 +525,9 @@ class Exporter:
             recv = self.an.op(b, t["args"][0])
             if self.vec_local_of(recv) != vlocal:
                 continue
-            if c.npath in EXTEND_FROM_SLICE or c.npath in APPEND or c.nsyn == "std::iter::Extend::extend":
+            # `<Vec<u8> as io::Write>::write_all(buf, bytes)` appends all bytes and never fails (std contract)
+            io_write = c.nsyn == "std::io::Write::write_all" and (c.syn_args or [""])[0] == "std::vec::Vec<u8>"
+            if c.npath in EXTEND_FROM_SLICE or c.npath in APPEND or c.nsyn == "std::iter::Extend::extend" or io_write:
                 src = self.an.op(b, t["args"][1])
                 nl = self.vec_local_of(src) if c.npath in APPEND else None
                 cont = self.content(src)
